@@ -387,7 +387,8 @@ func (ab *dsAddrBook) supersededSignedAddrs(p peer.ID, newAddrs []ma.Multiaddr) 
 	pr.RUnlock()
 
 	superseded := make([]ma.Multiaddr, 0, len(prevRec.Addrs))
-	for _, a := range prevRec.Addrs {
+	// newAddrs and the stored entries carry no /p2p/<id> suffix: strip it here too.
+	for _, a := range cleanAddrs(prevRec.Addrs, p) {
 		key := string(a.Bytes())
 		if _, still := newSet[key]; still {
 			continue
